@@ -65,14 +65,18 @@ Constructed ==
     [] OTHER -> <<>>
 
 \* the module's device list: <<name, is_input, is_output>>
-Devices == << <<"a", TRUE, FALSE>>, <<"b", TRUE, TRUE>>, <<"c", FALSE, TRUE>>, <<"d", TRUE, TRUE>>,
-              <<"b2", FALSE, TRUE>> >>
+\* (a device may be listed once as input and once as output, in another order)
+Devices == << <<"a", TRUE, FALSE>>, <<"b", TRUE, FALSE>>, <<"c", TRUE, FALSE>>, <<"x", TRUE, FALSE>>,
+              <<"c", FALSE, TRUE>>, <<"a", FALSE, TRUE>>, <<"y", FALSE, TRUE>>, <<"b", FALSE, TRUE>>,
+              <<"d", TRUE, TRUE>> >>
+OutputNames == {Devices[i][1] : i \in {j \in DOMAIN Devices : Devices[j][3]}}
 Names(P(_)) == LET s == SelectSeq(Devices, P) IN [i \in DOMAIN s |-> s[i][1]]
 Listing ==
   IF ~getdev THEN <<>>
   ELSE CASE call = "get_input_names"  -> Names(LAMBDA d : d[2])
          [] call = "get_output_names" -> Names(LAMBDA d : d[3])
-         [] call = "get_ioport_names" -> Names(LAMBDA d : d[2] /\ d[3])
+         \* the input names that are also output names, in input order
+         [] call = "get_ioport_names" -> Names(LAMBDA d : d[2] /\ d[1] \in OutputNames)
          [] OTHER -> <<>>
 QueryApi == IF call \in {"get_input_names", "get_output_names", "get_ioport_names"} /\ getdev
             THEN CallApi ELSE "none"
